@@ -287,6 +287,8 @@ pub struct Spec {
     /// why the item addressed by the command being judged is dead (attribution only)
     dead_by_ttl: bool,
     dead_by_flush: bool,
+    /// delayed flushes seen so far: (time of the flush, its deadline) - attribution only
+    flushes: Vec<(u64, u64)>,
 }
 
 #[derive(Clone, Debug, Default)]
@@ -327,6 +329,7 @@ impl Spec {
             stat: SpecStat::default(),
             dead_by_ttl: false,
             dead_by_flush: false,
+            flushes: vec![],
         }
     }
 
@@ -562,6 +565,9 @@ impl Spec {
             }
         } else {
             let dl = self.now + cmd.ttl as u64;
+            if self.flushes.len() < 64 {
+                self.flushes.push((self.now, dl));
+            }
             for it in self.items.values_mut() {
                 it.flush_deadline = Some(it.flush_deadline.map_or(dl, |o| o.min(dl)));
             }
@@ -855,6 +861,7 @@ impl Spec {
     fn apply_alive(&mut self, cmd: &Cmd, out: &Out, now: u64) -> Result<(), Violation> {
         let limit = self.item_limit as usize;
         let key = cmd.key.clone();
+        let flushes = self.flushes.clone();
         // take the item out to keep the borrow checker simple; put back unless removed
         let mut item = self.items.remove(&key).expect("alive item");
         let mut keep = true;
@@ -938,6 +945,11 @@ impl Spec {
                         let mut owners = vec![C01];
                         if item.ttls.iter().any(|t| *t != 0) || now != item.stored_at {
                             owners.push(C05);
+                        }
+                        // stored after a delayed flush and gone once that flush's deadline passed:
+                        // "items stored after a flush are not affected by it"
+                        if flushes.iter().any(|(f, d)| item.stored_at >= *f && now >= *d) {
+                            owners.push(C08);
                         }
                         Err(Violation::new(
                             "lost",
